@@ -25,6 +25,15 @@
 (* precedes them (operator Norm), so every step of the specification      *)
 (* corresponds to exactly one recorded event.                             *)
 (*                                                                         *)
+(*  - the environment of the conversation at the endpoint's limits group   *)
+(*    (action EnvStep, at most MaxEnv events between the commands of a     *)
+(*    behaviour): logical time passes (longer than the limiters' reap      *)
+(*    interval), other sessions with other source addresses and sender     *)
+(*    domains come and go (more distinct keys than the bucket tables hold, *)
+(*    so that reaping is attempted), another session of the same source    *)
+(*    address and sender domain takes / returns its permits.  Design: none *)
+(*    of this touches the permits of the session's own transaction.        *)
+(*                                                                         *)
 (* Deviations: behaviour the code has that C03 forbids, switched by Devs  *)
 (* (the design - what the property needs - is Devs = {}):                  *)
 (*  "DataFailNoAbort"    a failure between prepareBody and Commit (check, *)
@@ -64,6 +73,10 @@ CONSTANTS Rcpts,      \* recipient identities used, subset of {"ra","rb","rc"}
                       \* (annotated temporary / annotated permanent / no annotation at all)
           MaxFaults,  \* faults per behaviour
           MaxCmds,    \* commands per behaviour
+          MaxEnv,     \* environment events (EnvStep) per behaviour; 0 = the conversation is alone
+          EnvPlan,    \* "any": the environment may do anything; otherwise the name of the sequence of its
+                      \* events, see EnvPlans (behaviour generation: only where between the commands of
+                      \* the conversation they fall is left open)
           Allowed,    \* client alphabet: {"*"} = everything, else tokens "VERB:arg" (focused generation)
           Devs,       \* enabled deviations
           Gen         \* TRUE: keep the behaviour history and print complete behaviours
@@ -81,6 +94,7 @@ View == <<cfg, [m EXCEPT !.devs = {}], nf, ncmd, obs>>
 \* (final state, set of event kinds on the way): which commands with which arguments, which reply
 \* classes to which command, which target calls with which results
 Kind(e) == CASE e.a = "Cmd" -> <<"C", e.v, e.arg>>
+             [] e.a = "Env" -> <<"E", e.k>>
              [] e.a = "Tgt" -> <<"T", e.tgt, e.op,
                                  IF e.op = "bodyNA" THEN \A r \in DOMAIN e.st : e.st[r] = "ok" ELSE e.res = "ok">>
              [] OTHER       -> IF e.v \in {"DATA", "BDAT"} THEN <<"R", e.v, e.cls>> ELSE <<"R">>
@@ -90,6 +104,14 @@ GenView == <<cfg, m, nf, ncmd, obs, {Kind(hist[i]) : i \in 1..Len(hist)}>>
 \* one" is a class of its own
 TxOf(i) == Cardinality({j \in 1..(i - 1) : hist[j].a = "Cmd" /\ hist[j].v \in {"RSET", "DATA", "HELO"}})
 KindTx(i) == IF hist[i].a = "Cmd" THEN <<"C", hist[i].v, hist[i].arg, hist[i].r, TxOf(i)>> ELSE Kind(hist[i])
+\* environment events distinguished by the command they follow (their order is fixed by EnvScript)
+LastCmd(i) == IF \E j \in 1..(i - 1) : hist[j].a = "Cmd"
+              THEN LET j == CHOOSE j \in 1..(i - 1) : hist[j].a = "Cmd" /\ \A k \in (j + 1)..(i - 1) : hist[k].a # "Cmd"
+                   IN <<hist[j].v, hist[j].arg>>
+              ELSE <<"", "">>
+KindEnv(i) == IF hist[i].a = "Env" THEN <<"E", hist[i].k, LastCmd(i)>> ELSE Kind(hist[i])
+\* one behaviour per distinct (final state, where each environment event fell)
+GenViewEnv == <<cfg, m, nf, ncmd, obs, {KindEnv(i) : i \in {x \in 1..Len(hist) : hist[x].a = "Env"}}>>
 GenViewTx == <<cfg, m, nf, ncmd, obs, {KindTx(i) : i \in 1..Len(hist)}>>
 \* target calls distinguished by the class of their result (annotated temporary / permanent / none)
 KindRes(i) == IF hist[i].a = "Tgt" THEN <<"T", hist[i].tgt, hist[i].op, hist[i].res, hist[i].st>> ELSE Kind(hist[i])
@@ -140,6 +162,8 @@ M0 == [ helo |-> FALSE, from |-> FALSE, rcpts |-> <<>>, bdat |-> FALSE, alive |-
         ctxnil |-> FALSE,   \* msgCtx was set to nil although a delivery is open (failed nested MAIL)
         pd |-> NoPd, prc |-> NoPrc,
         all |-> 0, src |-> [k \in Keys |-> -1],
+        peer |-> 0,         \* 1: another session (same address, sender domain src.example) holds its permits
+        nenv |-> 0,         \* environment events so far
         stk |-> <<>>, lm |-> NoLm, ended |-> FALSE, devs |-> {} ]
 
 H(e) == IF Gen THEN Append(hist, e) ELSE hist
@@ -382,6 +406,45 @@ CmdStep(c, p) ==
   /\ UNCHANGED <<cfg, nf>>
 
 (***************************************************************************)
+(* The environment at the limits group, between two commands               *)
+(*  "wait"   more than the limiters' reap interval (1 min) passes: a slow  *)
+(*           client                                                        *)
+(*  "storm"  the same, then sessions from more distinct addresses and      *)
+(*           sender domains than the bucket tables hold come and go (each  *)
+(*           takes and returns its permits), then the reap interval passes *)
+(*           again: the tables are over their capacity and stale buckets   *)
+(*           are reaped.  Idle buckets may disappear (not visible in the   *)
+(*           counters); a bucket whose permit is out stays.                *)
+(*  "peer+"  another session from the same address with sender domain      *)
+(*           src.example takes its permits (TakeMsg)                       *)
+(*  "peer-"  ... and returns them (ReleaseMsg)                             *)
+(* Design: the permits of the conversation's own transaction are not       *)
+(* affected, the other session's permits are counted on top (obs.base).    *)
+(***************************************************************************)
+EnvKinds == {"wait", "storm", "peer+", "peer-"}
+EnvPlans == [ any     |-> <<>>,
+              SP      |-> <<"storm", "peer+">>,             \* tables reaped under a transaction, then a peer, still there at the end
+              SPM     |-> <<"storm", "peer+", "peer-">>,    \* ... that leaves before the conversation ends
+              PS      |-> <<"peer+", "storm">>,             \* a peer first, then the tables are reaped
+              PWM     |-> <<"peer+", "wait", "peer-">>,     \* a peer comes, time passes, it leaves
+              WPM     |-> <<"wait", "peer+", "peer-">>,
+              SS      |-> <<"storm", "storm">> ]
+EnvScript == EnvPlans[EnvPlan]
+
+EnvStep(k) ==
+  /\ Idle /\ m.nenv < MaxEnv /\ ~cfg.hold
+  /\ EnvScript = <<>> \/ (m.nenv < Len(EnvScript) /\ k = EnvScript[m.nenv + 1])
+  /\ k = "peer+" => m.peer = 0
+  /\ k = "peer-" => m.peer = 1
+  /\ LET x == [m EXCEPT !.nenv = @ + 1] IN
+       m' = CASE k = "peer+" -> [Take(x, "src") EXCEPT !.peer = 1]
+              [] k = "peer-" -> [Release(x, "src").x EXCEPT !.peer = 0]
+              [] OTHER       -> x
+  /\ obs' = ObsEnv(obs, k)
+  /\ hist' = H([a |-> "Env", k |-> k])
+  /\ UNCHANGED <<cfg, nf, ncmd>>
+
+(***************************************************************************)
 (* Replies                                                                 *)
 (***************************************************************************)
 SameKind(code, want) ==
@@ -565,6 +628,7 @@ Next ==
         \/ \E r \in Rcpts : TRcpt(t, r, res)
   \/ \E t \in Targets(cfg) : \E st \in Statuses(t) : TBodyNA(t, st)
   \/ CrashReply(421) \/ (\E t \in Targets(cfg) : CrashAbort(t)) \/ CrashStep
+  \/ (\E k \in EnvKinds : EnvStep(k))
   \/ EndStep
   \/ (m.ended /\ ~Gen /\ UNCHANGED vars)
 
@@ -576,7 +640,7 @@ Spec == Init /\ [][Next]_vars /\ WF_vars(Next)
 (***************************************************************************)
 NoViolation == obs.viol = {}
 NoDeviation == m.devs = {}
-TypeOK == /\ m.all \in 0..MaxCmds
+TypeOK == /\ m.all \in 0..(MaxCmds + 1)
           /\ \A t \in AllTargets : m.pd[t] \in {"none", "open", "closed"}
           /\ nf \in 0..MaxFaults
 Terminates == <>(m.ended)
